@@ -62,6 +62,15 @@ type scriptSpec struct {
 	UDPShare int       `json:"udp_share_pct"` // share of UDP among transport choices
 	Junk     int       `json:"junk"`          // non-admitted datagrams (QR set / short header)
 	Iso      int       `json:"isolation_probes"`
+	// QueueExpiry > 0: at QueueExpiryAt ms one client writes this many
+	// distinct questions back-to-back (one receive batch) whose resolution
+	// can only end at the query timeout (slow referrals, black-holed leaf —
+	// an isolation-style zone of their own). With one ingress worker and a
+	// one-slot ready queue the first occupies the worker for the whole
+	// querytimeout, the second waits in the queue behind it for its whole
+	// budget, the rest are served by overflow goroutines.
+	QueueExpiry   int `json:"queue_expiry,omitempty"`
+	QueueExpiryAt int `json:"queue_expiry_at_ms,omitempty"`
 	Seed     uint64    `json:"seed"`
 }
 
@@ -102,6 +111,10 @@ func baseScripts() []scriptSpec {
 		{Name: "udp-shed", Tweaks: envTweaks{ZoneServers: zs(1, 2), TinyMemory: true, IngressWorkers: 2, IngressQueue: 2},
 			Zone: faultMix{Honest: 1, Drop: 8, DelayLong: 1, TCPStall: 1}, TLD: faultMix{Honest: 1, TCPAnswer: 1},
 			UDPShare: 92, Waves: 3, WaveSize: 170, WaveGap: 900, Patterns: []patternWeight{{"distinct-zone", 6}, {"spread", 3}, {"burst-same", 1}}}, // no junk, no closers: the shed account is exact
+		{Name: "queue-expiry", Tweaks: envTweaks{ZoneServers: zs(1, 2), IngressWorkers: 1, IngressQueue: 1},
+			Zone: faultMix{Honest: 1, TCPAnswer: 1}, TLD: faultMix{Honest: 1, TCPAnswer: 1},
+			Waves: 2, WaveSize: 20, WaveGap: 3200, Patterns: []patternWeight{{"distinct-zone", 1}, {"spread", 1}},
+			QueueExpiry: 6, QueueExpiryAt: 900},
 		{Name: "closers-slow-walk", Tweaks: envTweaks{ZoneServers: zs(1, 2, 3, 1, 2, 3, 2, 2), QnameMin: true},
 			Zone: faultMix{Honest: 3, Drop: 3, DelayShort: 3, TC: 1, TCPAnswer: 1, TCPStall: 1}, TLD: faultMix{DelayShort: 6, Honest: 1, Drop: 1, TCPAnswer: 1},
 			Patterns: []patternWeight{{"closers", 4}, {"burst-same", 3}, {"distinct-zone", 2}, {"pipeline", 1}}, Iso: 2},
@@ -278,6 +291,7 @@ type planned struct {
 	atMs   int // offset from the start of the load phase
 	group  int // queries of one group share a pipelined connection (pattern "pipeline")
 	closeMs int // closers: close the socket this long after sending
+	noPace  bool // written back-to-back on one socket, no pacing (one receive batch)
 }
 
 type plan struct {
@@ -415,6 +429,11 @@ func buildPlan(rng *rand.Rand, sp *scriptSpec, nZones int) *plan {
 				add(w, pattern, fresh(z), dns.TypeA, "udp", at+rng.IntN(10))
 			}
 		}
+	}
+	// the queue-expiry burst (see scriptSpec.QueueExpiry)
+	for i := 0; i < sp.QueueExpiry; i++ {
+		p := add(sp.Waves+1, "queue-expiry", fmt.Sprintf("qe%d-%d.leaf.m%d.iso.test.", sp.Index, i, sp.Iso), dns.TypeA, "udp", sp.QueueExpiryAt)
+		p.noPace = true
 	}
 	// non-admitted datagrams, sprinkled over the load phase
 	for i := 0; i < sp.Junk; i++ {
